@@ -482,14 +482,7 @@ def s6(ctx, rep):
     p = cfg.path(cfg.entry, cfg.exit, deleted=bn, skip_labels=("exc",))
     rep.put(p is None and bool(bn), "S6", "must_follow", "HyperbandScheduler.on_trial_complete → _cleanup_trial", f, None,
             "", witness=cfg.describe_path(p) if p else None)
-    g = P.method("GPMultiFidelitySearcher", "evaluation_failed")
-    cfg = cfg_of(g)
-    for what, sel in (("cleanup_pending", ctx.sel_call(selfcall="cleanup_pending")),
-                      ("mark_trial_failed", ctx.sel_call(method="mark_trial_failed"))):
-        bn = ctx.nodes(g, sel, "must")
-        p = cfg.path(cfg.entry, cfg.exit, deleted=bn, skip_labels=("exc",))
-        rep.put(p is None and bool(bn), "S6", "must_follow", f"GPMultiFidelitySearcher.evaluation_failed → {what}", g, None,
-                "", f"a failed trial does not reach {what}", witness=cfg.describe_path(p) if p else None)
+    failed_trial_leaves_pending(ctx, rep, "S6")
     # pause / stop: on_trial_remove and on_trial_error release the rung-system record
     for m in ("on_trial_remove", "on_trial_error"):
         h = P.method("HyperbandScheduler", m)
@@ -498,6 +491,32 @@ def s6(ctx, rep):
         p = cfg.path(cfg.entry, cfg.exit, deleted=bn, skip_labels=("exc",))
         rep.put(p is None and bool(bn), "S6", "must_follow", f"HyperbandScheduler.{m} → _cleanup_trial", h, None, "",
                 witness=cfg.describe_path(p) if p else None)
+
+
+def failed_trial_leaves_pending(ctx, rep, clause="S6"):
+    """every evaluation_failed of a searcher that keeps a surrogate state: the failed trial's pending evaluations go (all of them),
+    and the trial is marked as failed - on every path (shared with C13-S4)"""
+    P = ctx.P
+    n = 0
+    for c in sorted(ctx.down("ModelBasedSearcher"), key=lambda c_: c_.name):
+        g = c.methods.get("evaluation_failed")
+        if g is None:
+            continue
+        n += 1
+        cfg = cfg_of(g)
+        for what, sel in (("its pending evaluations are dropped", ctx.sel_or(ctx.sel_call(selfcall="cleanup_pending"), ctx.sel_call(method="drop_pending_evaluation"),
+                                                                        ctx.sel_call(method="filter_pending_evaluations"))),
+                          ("it is marked as failed", ctx.sel_call(method="mark_trial_failed"))):
+            bn = ctx.nodes(g, sel, "must")
+            sup = {nd.id for nd in cfg.nodes for x in cfg.node_walk(nd.id) if isinstance(x, ast.Call) and fn_name(x) == "evaluation_failed"
+                   and isinstance(x.func, ast.Attribute) and isinstance(x.func.value, ast.Call) and fn_name(x.func.value) == "super"}
+            marks = set(bn) | sup
+            p = cfg.path(cfg.entry, cfg.exit, deleted=marks, skip_labels=("exc",))
+            rep.put(p is None and bool(marks), clause, "must_follow", f"{c.name}.evaluation_failed: {what}", g, None,
+                    "", f"a trial can fail without this: {what.replace('its', 'the failed trial-s').replace('it is', 'the trial is')} - stale pending evaluations keep "
+                    "being fantasized (or the failed configuration is suggested again)", witness=cfg.describe_path(p) if p else None)
+    if n < 2:
+        raise AnchorError("evaluation_failed implementations of the model-based searchers not found (2 confirmed)")
 
 
 def s7(ctx, rep):
